@@ -371,12 +371,19 @@ def profileCounts (xs : List (Option α)) : Prof α :=
 /-- The most-frequent lists of a sum (`profiler.py`, `__add__`): when both sides list something, the values
 listed on BOTH sides, in the left side's order, with the two counts added; when one side holds no values at all
 (an all-null batch) the other side's list; otherwise nothing. -/
-def addMfv [DecidableEq α] (a b : Prof α) : List (α × Nat) :=
+def addMfvWith [DecidableEq α] (oneSided : Bool → Bool → Bool → Bool → MfvPick) (a b : Prof α) : List (α × Nat) :=
   if !a.mfv.isEmpty && !b.mfv.isEmpty then
     a.mfv.filterMap (fun vc => (b.mfv.find? (fun q => q.1 = vc.1)).map (fun q => (vc.1, vc.2 + q.2)))
-  else if b.core.count = b.core.missing then a.mfv
-  else if a.core.count = a.core.missing then b.mfv
-  else []
+  else
+    -- the `elif` chain of the source: ours / the other side's / no list
+    match oneSided (decide (a.core.count = a.core.missing)) (decide (b.core.count = b.core.missing))
+        (!a.mfv.isEmpty) (!b.mfv.isEmpty) with
+    | .mine => a.mfv
+    | .theirs => b.mfv
+    | .nothing => []
+
+/-- …with the `elif` chain as it stands in the source (generated). -/
+def addMfv [DecidableEq α] (a b : Prof α) : List (α × Nat) := addMfvWith Gen.ProfileExpr.addMfvOneSided a b
 
 /-- The sketch of a sum: `sorted(set(self.kmv_hashes + profile.kmv_hashes))[:KVM_SIZE]` when both sides have
 one — a *set* of hashes: equal hashes of different values count once; otherwise the only sketch there is. -/
@@ -426,8 +433,20 @@ astral characters). -/
 def strLe (a b : String) : Bool := bytesLe (utf8Bytes a) (utf8Bytes b)
 def strLt (a b : String) : Bool := bytesLt (utf8Bytes a) (utf8Bytes b)
 
-/-- `col[:SIXTY_FOUR_BYTES]` (characters; generated width). -/
-def cutText (s : String) : String := String.ofList (s.toList.take Gen.ProfileExpr.textCutWidth)
+/-- `s.encode()[:w].decode(errors="ignore")` on the characters: the longest run of whole characters from the start
+whose UTF-8 encoding fits `w` bytes (a character cut in half is dropped, and so is everything after it). -/
+def takeBytes : Nat → List Char → List Char
+  | _, [] => []
+  | w, c :: cs => if c.utf8Size ≤ w then c :: takeBytes (w - c.utf8Size) cs else []
+
+/-- The profiled window of a text value, by unit: the first `w` characters, or the whole characters that fit `w` bytes. -/
+def cutTextWith (onBytes : Bool) (w : Nat) (s : String) : String :=
+  String.ofList (if onBytes then takeBytes w s.toList else s.toList.take w)
+
+/-- `col[:SIXTY_FOUR_BYTES]` as it stands in `VarcharProfiler` (generated unit and width; characters on the tree the
+theorems are about). -/
+def cutText (s : String) : String :=
+  cutTextWith Gen.ProfileExpr.textCutOnBytes Gen.ProfileExpr.textCutWidth s
 
 /-- `int.from_bytes(b, "big")`. -/
 def beVal : List Nat → Nat
